@@ -427,6 +427,8 @@ func (x *Exec) Build(op Op) *Req {
 		r.Query.Set("uploadId", x.realUid(op.S("uid")))
 		r.setBody([]byte(sb.String()))
 		return r
+	case "Upload":
+		return x.buildUpload(op)
 	case "Abort":
 		r := newReq("DELETE", x.objPath(b, k))
 		r.Query.Set("uploadId", x.realUid(op.S("uid")))
@@ -522,4 +524,149 @@ func extraSlashes(r *Req) {
 	if r.Path != "/" {
 		r.Path = "//" + strings.TrimPrefix(r.Path, "/") + "/"
 	}
+}
+
+type failingReader struct {
+	data []byte
+	pos  int
+}
+
+func (f *failingReader) Read(p []byte) (int, error) {
+	if f.pos >= len(f.data) {
+		return 0, fmt.Errorf("verif: injected body reader failure")
+	}
+	n := copy(p, f.data[f.pos:])
+	f.pos += n
+	return n, nil
+}
+
+// awsChunked encodes payload in the STREAMING-AWS4-HMAC-SHA256-PAYLOAD framing.
+func awsChunked(payload []byte, sizes []int, final bool) []byte {
+	var buf bytes.Buffer
+	sig := strings.Repeat("a", 64)
+	pos := 0
+	for _, n := range sizes {
+		if pos+n > len(payload) {
+			n = len(payload) - pos
+		}
+		fmt.Fprintf(&buf, "%x;chunk-signature=%s\r\n", n, sig)
+		buf.Write(payload[pos : pos+n])
+		buf.WriteString("\r\n")
+		pos += n
+	}
+	if pos < len(payload) {
+		n := len(payload) - pos
+		fmt.Fprintf(&buf, "%x;chunk-signature=%s\r\n", n, sig)
+		buf.Write(payload[pos:])
+		buf.WriteString("\r\n")
+	}
+	if final {
+		fmt.Fprintf(&buf, "0;chunk-signature=%s\r\n\r\n", sig)
+	}
+	return buf.Bytes()
+}
+
+// buildUpload builds one classified upload attempt (C08).
+func (x *Exec) buildUpload(op Op) *Req {
+	body := x.Conc.Body(op.Atoms("body"))
+	akey := op.Key("k")
+	switch op.S("keyClass") {
+	case "max":
+		akey += "!"
+	case "over":
+		akey += "!!"
+	}
+	key := x.Conc.Key(akey)
+	b := toBytes(op["b"])
+	target := op.S("target")
+	limit := x.Sys.Opts.MetaLimit
+	if limit <= 0 {
+		limit = 2000
+	}
+	pad := strings.Repeat("m", 2*limit)
+
+	if target == "post" {
+		var buf bytes.Buffer
+		mw := multipart.NewWriter(&buf)
+		mw.WriteField("key", key)
+		for name, v := range op.StrMap("meta") {
+			mw.WriteField(metaHeader(name), x.Conc.MetaValue(name, v))
+		}
+		if op.S("metaClass") == "over" {
+			mw.WriteField("X-Amz-Meta-Pad", pad)
+		}
+		fw, _ := mw.CreateFormFile("file", "upload.bin")
+		fw.Write(body)
+		mw.Close()
+		r := newReq("POST", "/"+b)
+		r.setBody(buf.Bytes())
+		r.Header.Set("Content-Type", mw.FormDataContentType())
+		return r
+	}
+
+	r := newReq("PUT", x.objPath(b, key))
+	if target == "part" {
+		r.Query.Set("uploadId", x.realUid(op.S("uid")))
+		r.Query.Set("partNumber", strconv.Itoa(x.Conc.PartNum(op.I("n"))))
+	} else {
+		x.setMeta(r, op.StrMap("meta"))
+		if op.S("metaClass") == "over" {
+			r.Header.Set("X-Amz-Meta-Pad", pad)
+		}
+	}
+	switch op.S("digest") {
+	case "good":
+		r.Header.Set("Content-MD5", md5b64(body))
+	case "wrong":
+		r.Header.Set("Content-MD5", md5b64(append(append([]byte{}, body...), 'x')))
+	case "malformed":
+		r.Header.Set("Content-MD5", "%%%not-base64%%%")
+	case "short":
+		r.Header.Set("Content-MD5", "MTIzNDU=")
+	case "empty":
+		r.Header["Content-Md5"] = []string{""}
+	}
+	// what is actually sent
+	sent := body
+	switch op.S("length") {
+	case "shorter":
+		sent = body[:len(body)/2]
+	case "longer":
+		sent = append(append([]byte{}, body...), []byte("EXTRA-BYTES")...)
+	}
+	declared := len(body)
+	wire := sent
+	if target == "chunked" {
+		sizes := []int{len(sent)/3 + 1, len(sent) / 2}
+		wire = awsChunked(sent, sizes, true)
+		r.Header.Set("X-Amz-Content-Sha256", "STREAMING-AWS4-HMAC-SHA256-PAYLOAD")
+		r.Header.Set("X-Amz-Decoded-Content-Length", strconv.Itoa(declared))
+		r.Header.Set("Content-Encoding", "aws-chunked")
+		declared = len(wire)
+		if op.S("length") != "exact" {
+			// the transport length is right; only the decoded length lies
+		}
+	}
+	r.Body = bytes.NewReader(wire)
+	r.CLen = int64(declared)
+	r.Header.Set("Content-Length", strconv.Itoa(declared))
+	switch op.S("length") {
+	case "missing":
+		r.Header.Del("Content-Length")
+		r.CLen = -1
+	case "negative":
+		r.Header.Set("Content-Length", "-5")
+		r.CLen = -1
+	case "nonnumeric":
+		r.Header.Set("Content-Length", "abc")
+		r.CLen = -1
+	}
+	if f := op.I("failAt"); op.Has("failAt") && f >= 0 {
+		k := map[int]int{0: 0, 1: 1, 2: len(wire) / 2, 3: len(wire) - 1}[f]
+		if k > len(wire) {
+			k = len(wire)
+		}
+		r.Body = &failingReader{data: wire[:k]}
+	}
+	return r
 }
